@@ -1247,4 +1247,7 @@ CASES = {
 
 def replay_case(prop, body):
     from . import dotcases                              # registers C20 cases
+    if body['case'] == 'suite':
+        from .suite import run_suite_case
+        return run_suite_case(prop, body['key'], body['index'], body['tier'])
     return CASES[body['case']](prop, body['key'], body['index'], body['tier'])
